@@ -259,6 +259,10 @@ pub const QUOTED_FORMS: &[&str] = &[
     "\"a\\\\b\"",         // "a\\b"          -> a\\b
     "a\\\\",              // a\\  (not quoted) -> a\\
     " \"ab\"",             // leading white space before the quoted form -> ab
+    "a ",                  // white space after / before / around a plain text -> a
+    " a",
+    " a b ",
+    "a\\\\ ",             // a\\ followed by a space (the backslashes are a pair of their own) -> a\\
 ];
 
 /// What the accessors of a freshly constructed attribute are expected to return
